@@ -51,6 +51,14 @@ def run_errors():
                         _viol(out, "common.ErrorContext.__init__", key, "span is not [position, position]")
                     if Location(ec).is_eof() != (pos == L):
                         _viol(out, "common.Location.is_eof", key, {"observed": Location(ec).is_eof(), "expected": pos == L})
+    # is_eof on list (non-string) inputs
+    for seq in ([], [1], [1, "a"], ["a", "b", "c"]):
+        for pos in range(0, len(seq) + 1):
+            out["evaluations"] += 1
+            ec = ErrorContext(NS(position=pos, input_str=seq, file_name=None, start_position=pos, end_position=pos))
+            if Location(ec).is_eof() != (pos == len(seq)):
+                _viol(out, "common.Location.is_eof", {"input (list)": [str(x) for x in seq], "pos": pos},
+                      {"observed": Location(ec).is_eof(), "expected": pos == len(seq)})
     if pos_to_line_col("abc", None) != (None, None):
         _viol(out, "common.pos_to_line_col", {"position": None}, "expected (None, None)")
     out["covers"] = ["exceptions.get_line_col_at_position", "common.pos_to_line_col", "common.pos_to_line_col@str",
@@ -133,50 +141,69 @@ def run_misc():
             log.append(a)
             return verdict
         ahead = object()
-        ctx = NS(token=(object() if tok_set else None), token_ahead=ahead, production=None)
+        ahead = NS(symbol=NS(name="ahead", dynamic=False))
+        ctx = NS(token=(NS(symbol=NS(name="tok", dynamic=False)) if tok_set else None), token_ahead=ahead, production=None)
         tok0 = ctx.token
         to_state = NS(symbol=NS(dynamic=marked if action is SHIFT else False))
         prod = NS(dynamic=marked if action is REDUCE else False)
         stub = NS(dynamic_filter=filt, debug=False)
         out["evaluations"] += 1
         out["nontrivial"] += 1
-        r = Parser._call_dynamic_filter(stub, ctx, "from", to_state, action, prod, ["s"])
+        from_state = NS(state_id=1, dynamic=set(), actions={})
         key = {"action": "SHIFT" if action is SHIFT else "REDUCE", "marked": marked, "filter_verdict": verdict}
+        try:
+            r = Parser._call_dynamic_filter(stub, ctx, from_state, to_state, action, prod, ["s"])
+        except Exception as e:  # noqa
+            _viol(out, "Parser._call_dynamic_filter", key, f"raised {type(e).__name__}: {str(e)[:80]}")
+            continue
         if marked:
-            ok = bool(r) == verdict and len(log) == 1 and log[0] == (ctx, "from", to_state, action, prod, ["s"])
+            ok = bool(r) == verdict and len(log) == 1 and log[0] == (ctx, from_state, to_state, action, prod, ["s"])
         else:
             ok = r is True and not log
         if not ok or ctx.token is not (tok0 if tok_set else ahead):
             _viol(out, "Parser._call_dynamic_filter", key, {"result": r, "filter_calls": len(log)})
-    # ---- _check_parser
+    # ---- _check_parser (real conflict objects: a conflict is dynamic through its look-ahead terminal being in
+    # state.dynamic -- because the terminal is marked ('term') or a production in the conflict is ('prod'))
+    from parglare.exceptions import RRConflict, SRConflict
+    import contextlib, io
+
+    class Sym:      # (hashable, as grammar symbols are)
+        def __init__(self, name, dynamic):
+            self.name, self.dynamic = name, dynamic
+
+    def mk_conflict(cls, how):
+        term = Sym("t", how == "term")
+        state = NS(state_id=0, symbol="sym", dynamic=({term} if how else set()))
+        return cls(state, term, [NS(dynamic=(how == "prod"), prod_id=1)])
+    hows = (None, "term", "prod")
     for filt_set in (False, True):
-        for sr in itertools.product((False, True), repeat=2):
-            for n_sr in range(0, 3):
-                for rr in itertools.product((False, True), repeat=2):
-                    for n_rr in range(0, 3):
+        for n_sr in range(0, 3):
+            for sr in itertools.product(hows, repeat=n_sr):
+                for n_rr in range(0, 3):
+                    for rr in itertools.product(hows, repeat=n_rr):
                         out["evaluations"] += 1
-                        srl = [NS(dynamic=d) for d in sr[:n_sr]]
-                        rrl = [NS(dynamic=d) for d in rr[:n_rr]]
-                        stub = NS(table=NS(sr_conflicts=srl, rr_conflicts=rrl), dynamic_filter=(lambda *a: True) if filt_set else None,
-                                  print_debug=lambda: None)
+                        out["nontrivial"] += 1 if (n_sr or n_rr) else 0
+                        srl = [mk_conflict(SRConflict, h) for h in sr]
+                        rrl = [mk_conflict(RRConflict, h) for h in rr]
+                        stub = NS(table=NS(sr_conflicts=srl, rr_conflicts=rrl),
+                                  dynamic_filter=(lambda *a: True) if filt_set else None, print_debug=lambda: None)
                         exp = None
-                        if srl and (not filt_set or any(not c.dynamic for c in srl)):
-                            exp = SRConflicts
-                        elif rrl and (not filt_set or any(not c.dynamic for c in rrl)):
-                            exp = RRConflicts
+                        if srl and (not filt_set or any(h is None for h in sr)):
+                            exp = "SRConflicts"
+                        elif rrl and (not filt_set or any(h is None for h in rr)):
+                            exp = "RRConflicts"
                         try:
-                            import contextlib, io
                             with contextlib.redirect_stdout(io.StringIO()):
-                                for c in srl + rrl:
-                                    c.state = NS(state_id=0)
                                 Parser._check_parser(stub)
                             got = None
                         except (SRConflicts, RRConflicts) as e:
-                            got = type(e)
-                        if got is not exp:
-                            _viol(out, "Parser._check_parser", {"filter": filt_set, "sr_dynamic": list(sr[:n_sr]),
-                                                                "rr_dynamic": list(rr[:n_rr])},
-                                  {"expected": getattr(exp, "__name__", None), "observed": getattr(got, "__name__", None)})
+                            got = type(e).__name__
+                        except Exception as e:  # noqa  (the real code raised something else)
+                            got = f"raised {type(e).__name__}: {str(e)[:80]}"
+                        if got != exp:
+                            _viol(out, "Parser._check_parser", {"filter": filt_set, "sr_conflicts_dynamic_through": list(sr),
+                                                                "rr_conflicts_dynamic_through": list(rr)},
+                                  {"expected": exp, "observed": got})
     # ---- _lexical_disambiguation
     stub = NS(debug=False)
     for n in range(0, 4):
@@ -200,30 +227,88 @@ def run_misc():
     t2 = Token(NS(name="a"), "abc", 4, length=0)
     if (len(t), t.end_position, len(t2), t2.end_position) != (3, 7, 0, 4):
         _viol(out, "Token.__init__", {}, "length/end_position")
-    for value in ("a", "ab", ".", "a+"):
-        rec = StringRecognizer(value)
+    for value, ic in itertools.product(("a", "ab", ".", "a+", "Ab"), (False, True)):
+        rec = StringRecognizer(value, ignore_case=ic)
         for L in range(0, 4):
-            for s in itertools.product("ab.+", repeat=L):
+            for s in itertools.product("aAb.+", repeat=L):
                 s = "".join(s)
                 for pos in range(0, L + 1):
                     out["evaluations"] += 1
                     r = rec(s, pos)
-                    exp = value if s[pos:pos + len(value)] == value else None
+                    seg = s[pos:pos + len(value)]
+                    # what is returned is what stands in the input
+                    exp = seg if (seg == value or (ic and seg.lower() == value.lower())) else None
                     if r != exp:
-                        _viol(out, "StringRecognizer.__call__", {"value": value, "input": s, "pos": pos},
+                        _viol(out, "StringRecognizer.__call__", {"value": value, "ignore_case": ic, "input": s, "pos": pos},
                               {"expected": exp, "observed": r})
     out["covers"] = ["Parser._call_dynamic_filter", "Parser._check_parser", "Parser._lexical_disambiguation",
                      "Token.__init__", "Token.__len__", "Token.end_position", "StringRecognizer.__call__"]
     out["samples"].append({"function": "_lexical_disambiguation", "candidates(len,prefer)": [[2, False], [2, True], [1, True]]})
     out["rule"] = ("companions of the parser_misc contracts: all combinations of action/mark/verdict for the filter call, "
-                   "conflict lists up to length 2, candidate lists up to length 3 over (length, prefer), string recogniser "
-                   "on inputs up to length 3")
+                   "conflict lists up to length 2 of real SRConflict/RRConflict objects (not dynamic / dynamic through the terminal / through a production), candidate lists up to length 3 over (length, prefer), string recogniser "
+                   "(ignore_case off/on) on inputs up to length 3 over mixed case")
     return out
 
 
 def replay(case, key):
     out = _res()
-    for f in (run_errors, run_recovery, run_misc):
+    for f in (run_errors, run_recovery, run_misc, run_actions):
         r = f()
         out["violations"].extend(r["violations"])
+    return out
+
+
+def run_actions():
+    """companions of contracts/actions.py: the real collecting actions on every list of length 0..3 over two
+    distinguishable elements; result contents and NO mutation of any argument"""
+    import copy
+    from parglare import actions as A
+    out = _res()
+    elems = ["x", 0, None]          # (0 and None: falsy / missing matches)
+
+    def lists(maxn=3):
+        for n in range(maxn + 1):
+            yield from (list(t) for t in itertools.product(["x", "y"], repeat=n))
+    for acc in lists():
+        for e in elems:
+            for name, fn, nodes in (("collect_first", A.collect_first, [acc, e]),
+                                    ("collect_first_sep", A.collect_first_sep, [acc, ",", e])):
+                before = copy.deepcopy(nodes)
+                acc_id = id(nodes[0])
+                out["evaluations"] += 1
+                out["nontrivial"] += 1
+                r = fn(None, nodes)
+                exp = before[0] + [e] if e is not None else before[0]
+                key = {"nodes": before}
+                if r != exp:
+                    _viol(out, f"actions.{name}", key, {"result": r, "expected": exp})
+                if nodes != before:
+                    _viol(out, f"actions.{name}", key, {"argument_mutated_to": nodes})
+                if e is not None and id(r) == acc_id:
+                    _viol(out, f"actions.{name}", key, "the accumulated list was extended in place")
+            for name, fn, nodes in (("collect_right_first", A.collect_right_first, [e, acc]),
+                                    ("collect_right_first_sep", A.collect_right_first_sep, [e, ",", acc])):
+                before = copy.deepcopy(nodes)
+                tail_id = id(nodes[-1])
+                out["evaluations"] += 1
+                out["nontrivial"] += 1
+                r = fn(None, nodes)
+                exp = [e] + before[-1]
+                key = {"nodes": before}
+                if r != exp:
+                    _viol(out, f"actions.{name}", key, {"result": r, "expected": exp})
+                if nodes != before or id(r) == tail_id:
+                    _viol(out, f"actions.{name}", key, {"argument_mutated_to": nodes})
+    for v in elems + [[], ["x"]]:
+        out["evaluations"] += 1
+        if A.pass_none(None, v) is not None or A.pass_nochange(None, v) is not v or A.pass_empty(None, v) != [] \
+                or A.pass_single(None, [v, "z"]) is not v:
+            _viol(out, "actions.pass_*", {"value": v}, "pass_none / pass_nochange / pass_empty / pass_single")
+    if A.pass_empty(None, None) is A.pass_empty(None, None):
+        _viol(out, "actions.pass_empty", {}, "the same list object is returned twice")
+    out["covers"] = ["actions.pass_none", "actions.pass_nochange", "actions.pass_empty", "actions.pass_single",
+                     "actions.collect_first", "actions.collect_first_sep", "actions.collect_right_first",
+                     "actions.collect_right_first_sep"]
+    out["rule"] = ("companions of contracts/actions.py: the real collecting actions on accumulated lists of length 0..3 "
+                   "x new element in {'x', 0, None}: result contents, arguments unchanged, result not aliased")
     return out
